@@ -23,6 +23,9 @@ def c09(c):
                       "coq/respdec/C09Decode.v); identity framing without declared length and data after the first Flush is excluded (finding D9); "
                       "duplicate declared trailer keys are excluded (the parser's trailer set deduplicates, the writer model's list does not)"]
     c.harness("httpresp", ["-n", n(c, 220, 6000)], overlay=True, model=RESP_MODEL, timeout=3000)
+    # the same clause end to end on real connections, plain and TLS (file-serving handlers: ReadFrom / Sendfile branch)
+    c.trusted += ["end-to-end tier (cmd/httpe2e -part c09): net/http over TCP and over crypto/tls as the decoder; TLS itself is exercised, not modelled"]
+    c.harness("httpe2e", ["-part", "c09"], overlay=True, timeout=3000)
     c.finish()
 
 
@@ -47,7 +50,7 @@ if True:
             note="Decode theorems hold under decidable well-formedness hypotheses (token header names other than the framing headers, values without CR/LF not starting with SP, status 100..999, "
                  "Writes and lengths below 2^62, distinct declared trailer keys); identity framing needs the announced length to be met (cl_ok: handler obligation for a declared Content-Length; "
                  "without one no data after the first Flush - finding D9). They connect the two MODELS; each model's tie to its Go file is the differential run (C09 harness, C06/C07 harness). "
-                 "ReadFrom (io.Copy / io.CopyN / ServeContent into the response) is covered as the sequence of Writes of the <= 32 KiB pieces io.Copy reads (harness ops `via`; the limit of an io.LimitedReader over a longer source must be kept - D46); the Sendfile branch of ReadFrom (file range on a plain connection) is exercised by the C10 end-to-end harness only. Trusted: Coq kernel, extraction, OCaml driver, Go harness, net/http's client parser (oracle).",
+                 "ReadFrom (io.Copy / io.CopyN / ServeContent into the response) is covered as the sequence of Writes of the <= 32 KiB pieces io.Copy reads (harness ops `via`; the limit of an io.LimitedReader over a longer source must be kept - D46); the Sendfile branch of ReadFrom (file range on a plain connection, and its absence under TLS) is exercised end to end (cmd/httpe2e -part c09: file-serving handlers on plain and TLS listeners, all IOMods), not modelled. Trusted: Coq kernel, extraction, OCaml driver, Go harness, net/http's client parser (oracle).",
             design="4/C09, Appendix O"),
     }
 else:
